@@ -86,6 +86,9 @@ def delegated_rows(s):
     for sub in ("a", "ab", "zz", ",", ""):
         rows += [("find", (sub,)), ("rfind", (sub,)), ("index", (sub,)), ("count", (sub,)), ("startswith", (sub,)), ("endswith", (sub,))]
     rows += [("find", ("a", 1)), ("partition", (",",)), ("rpartition", ("a",)), ("rsplit", (",",)), ("rsplit", (" ", 1))]
+    # the arguments str accepts by keyword, spelt that way
+    rows += [("expandtabs", (), {"tabsize": 4}), ("expandtabs", (), {"tabsize": 1}), ("rsplit", (",",), {"maxsplit": 1}), ("rsplit", (), {"sep": ","}),
+             ("rsplit", (), {"sep": " ", "maxsplit": 1}), ("rsplit", (), {"maxsplit": 1})]
     return rows
 
 
@@ -204,10 +207,13 @@ def run_case(case):
 
     from curtsies.formatstring import FmtStr
 
-    for m, args in delegated_rows(s):
+    for m, args, *rest in delegated_rows(s):
+        kw = rest[0] if rest else {}
         evals += 1
-        want, werr = call(lambda: getattr(s, m)(*args))
-        got, gerr = call(lambda: getattr(f, m)(*args))
+        want, werr = call(lambda: getattr(s, m)(*args, **kw))
+        got, gerr = call(lambda: getattr(f, m)(*args, **kw))
+        if kw:
+            args = tuple(args) + tuple(sorted(kw.items()))  # (for the reports)
         if werr is not None:
             if gerr is None or type(gerr) is not type(werr):
                 res.viol("delegated_exception_differs", method=m, args=list(args), desc=desc, got=exc_str(gerr) if gerr else "no exception", expected=exc_str(werr))
